@@ -116,3 +116,55 @@ pub proof fn lemma_unesc_escape(x: Seq<u8>, rest: Seq<u8>)
         assert(escape(x).len() == e.len() + escape(xs).len());
     }
 }
+// ---- numbers: reading back the decimal text written for n gives n (kind, created_at, since, until, limit) ----
+pub proof fn lemma_dec_digits_are_digits(n: nat)
+    ensures dec_digits(n).len() >= 1, forall|i: int| 0 <= i < dec_digits(n).len() ==> is_digit(#[trigger] dec_digits(n)[i])
+    decreases n
+{
+    if n >= 10 { lemma_dec_digits_are_digits(n / 10); }
+}
+pub proof fn lemma_digits_val_dec(s: Seq<u8>, p: int, n: nat)
+    requires 0 <= p, p + dec_digits(n).len() <= s.len(),
+        forall|i: int| 0 <= i < dec_digits(n).len() ==> #[trigger] s[p + i] == dec_digits(n)[i],
+    ensures digits_val(s, p, p + dec_digits(n).len()) == n
+    decreases n
+{
+    let l = dec_digits(n).len() as int;
+    if n < 10 {
+        assert(dec_digits(n) =~= seq![(48 + n) as u8]);
+        assert(s[p + 0] == dec_digits(n)[0]);
+        assert(digits_val(s, p, p) == 0);
+    } else {
+        let d = dec_digits(n / 10);
+        assert(dec_digits(n) =~= d + seq![(48 + n % 10) as u8]);
+        assert forall|i: int| 0 <= i < d.len() implies #[trigger] s[p + i] == d[i] by { assert(s[p + i] == dec_digits(n)[i]); }
+        lemma_digits_val_dec(s, p, n / 10);
+        assert(s[p + (l - 1)] == dec_digits(n)[l - 1]);
+    }
+}
+pub proof fn lemma_digits_end_run(s: Seq<u8>, p: int, e: int)
+    requires 0 <= p <= e <= s.len(), forall|k: int| p <= k < e ==> is_digit(#[trigger] s[k]), e < s.len() ==> !is_digit(s[e])
+    ensures digits_end(s, p) == e
+    decreases e - p
+{
+    if p < e { lemma_digits_end_run(s, p + 1, e); }
+}
+pub proof fn lemma_read_back_number(pre: Seq<u8>, n: nat, rest: Seq<u8>)
+    requires rest.len() == 0 || !is_digit(rest[0])
+    ensures ({
+        let s = pre + dec_digits(n) + rest;
+        let p = pre.len() as int;
+        &&& digits_end(s, p) == p + dec_digits(n).len()
+        &&& digits_val(s, p, digits_end(s, p)) == n
+    })
+{
+    let s = pre + dec_digits(n) + rest;
+    let p = pre.len() as int;
+    let l = dec_digits(n).len() as int;
+    lemma_dec_digits_are_digits(n);
+    assert forall|i: int| 0 <= i < l implies #[trigger] s[p + i] == dec_digits(n)[i] by { }
+    assert forall|k: int| p <= k < p + l implies is_digit(#[trigger] s[k]) by { assert(s[p + (k - p)] == dec_digits(n)[k - p]); }
+    if p + l < s.len() { assert(s[p + l] == rest[0]); }
+    lemma_digits_end_run(s, p, p + l);
+    lemma_digits_val_dec(s, p, n);
+}
